@@ -110,6 +110,17 @@ public:
     // Calculate TTL from DNS result
     std::uint32_t ttl = calculateResultTtl(result);
 
+    // A zero TTL means "do not cache" (RFC 1035 3.2.1). ExpiringCache::set treats a
+    // zero custom TTL as "use the default", which would serve the answer for minutes.
+    if (ttl == 0)
+    {
+      if (hadEntry)
+      {
+        cache_->remove(key); // eviction callback adjusts the current-entry counters
+      }
+      return;
+    }
+
     // Store positive result
     CachedDnsResult cachedResult(result);
     cache_->set(key, cachedResult, std::chrono::seconds(ttl));
@@ -150,6 +161,16 @@ public:
     auto existingEntry = cache_->get(key);
     bool hadEntry = existingEntry.has_value();
     bool hadNegativeEntry = hadEntry && existingEntry->isNegative;
+
+    // A zero negative TTL means "do not cache" (see put()).
+    if (negativeTtl == 0)
+    {
+      if (hadEntry)
+      {
+        cache_->remove(key);
+      }
+      return;
+    }
 
     // Store negative result
     CachedDnsResult cachedResult(result, errorMessage);
